@@ -13,6 +13,7 @@ mod peers;
 mod reqgen;
 mod props;
 mod runner;
+mod tlspeer;
 mod urlref;
 
 use runner::{PropertySpec, Verdict};
@@ -20,6 +21,16 @@ use runner::{PropertySpec, Verdict};
 const REAL: &[&str] = &[
     "attohttpc src/ (request writer, response parser, body/chunked/compressed readers, redirect loop, proxy logic, watchdog, happy eyeballs) compiled from /repo working tree",
     "crates http, url, base64, flate2/miniz_oxide, encoding_rs, serde_json",
+];
+#[cfg(feature = "native")]
+const BACKEND: &str = "native-tls (OpenSSL)";
+#[cfg(all(feature = "rustls-backend", not(feature = "native")))]
+const BACKEND: &str = "rustls";
+
+const TLS_REAL: &[&str] = &[
+    "attohttpc src/ incl. tls/ (TlsHandshaker, apply_base_settings, connect_tls, initiate_tunnel) compiled from /repo working tree",
+    "client TLS library: native-tls + OpenSSL (default build) or rustls (rustls-backend build)",
+    "rustls::ServerConnection as the TLS half of simulated https peers",
 ];
 const STUB: &[&str] = &[
     "attosim: TCP sockets and network, DNS, monotonic clock, mpsc channels, thread spawn + scheduling, process environment, boundary PRNG",
@@ -33,6 +44,7 @@ static SPECS: &[PropertySpec] = &[
         level: "exploration",
         rule: "plans drawn from a seeded tape: framing x payload class x chunking x chunk-size spelling x trailing garbage x segmentation (uniform, 1-byte drip, targeted cuts inside CRLF/size line/head-body boundary) x caller read schedule x EINTR/coalescing; distinct = distinct plan-shape string (framing, size class, chunk-count class, >64KiB chunk, segmentation class, read class, garbage, eintr, coalesce); non-trivial = more than one delivery segment or a transport fault armed",
         quick_runs: 6000,
+        matrix_cells: 0,
         thorough_runs: 400_000,
         real_components: REAL,
         stubbed_components: STUB,
@@ -44,6 +56,7 @@ static SPECS: &[PropertySpec] = &[
         level: "exploration",
         rule: "a C01 plan plus exactly one damage: cut+FIN or cut+RST at an offset (targets: inside head, size line, between CR and LF, inside chunk data, before/inside the final 0 CRLF CRLF, one byte before the Content-Length end, uniform), silence longer than the read timeout followed by the rest of the bytes, or one corrupted chunk-framing byte; then 0..4 further caller reads after the first error; ground truth = lenient reference decoder on the delivered wire; distinct = plan-shape string incl. damage kind; every run is non-trivial (one fault by construction)",
         quick_runs: 8000,
+        matrix_cells: 0,
         thorough_runs: 600_000,
         real_components: REAL,
         stubbed_components: STUB,
@@ -55,6 +68,7 @@ static SPECS: &[PropertySpec] = &[
         level: "exploration",
         rule: "method x status x Content-Length field list (0..3 copies; equal/different; valid, negative, empty, non-numeric, >2^64, '+n', list-valued) x Transfer-Encoding list (absent, chunked in any case, 'identity, chunked', split over two fields) x trailing bytes x peer closes|stays silent x segmentation x bytes()/read(); expected outcome from the RFC 9112 6.3 decision table (empty without waiting / payload / must fail / not decided); distinct = (method, status, CL shape, TE, end, expectation, reader, segmentation class); non-trivial = the table decides the combination",
         quick_runs: 8000,
+        matrix_cells: 0,
         thorough_runs: 500_000,
         real_components: REAL,
         stubbed_components: STUB,
@@ -66,6 +80,7 @@ static SPECS: &[PropertySpec] = &[
         level: "exploration",
         rule: "generated heads: status 100..999, any reason phrase / version token, 0..max_headers+1 fields (max_headers itself drawn: 0, 1, small, medium, default; exactly-at-limit and limit+1 targeted), names over the token alphabet in random case with duplicates, values over VCHAR/SP/HTAB/obs-text/empty with surrounding spaces and bare-LF continuations, heads larger than the 8 KiB buffer, single lines up to 15 KB; every segmentation class applied to the head; distinct = (status class, version, field-count class, limit class, big, TE, segmentation, accessor); non-trivial = at least one field",
         quick_runs: 6000,
+        matrix_cells: 0,
         thorough_runs: 300_000,
         real_components: REAL,
         stubbed_components: STUB,
@@ -77,6 +92,7 @@ static SPECS: &[PropertySpec] = &[
         level: "exploration",
         rule: "three generators feeding the response read path: (a) strings of up to 14 items over {digits, hex letters, ';', ':', SP, CR, LF, '+', '-', other, CRLF, status line} as the whole response or as a chunked body; (b) 1..4 mutations (bit flip, deletion, duplication, numeric blow-up to 2^31/2^32/2^63/2^64-1/2^64, splice, truncation) of a valid response; (c) 'endless' streams (0.5-2 MiB) for a status line without end, a header line without end, header fields without end, bare-LF continuation without end, a chunk-size line without end, and a gzip bomb; random segmentation, FIN/RST/stall endings, EINTR, 0..4 re-reads after errors; oracles: no panic, termination (event cap, deadlock detection, real-time hang monitor), bounded bytes pulled from the transport per construct, allocation monitor (largest request, peak live, hard cap 1 GiB); distinct = (generator kind, method, ending, segmentation, reread, read size, eintr); every run non-trivial",
         quick_runs: 6000,
+        matrix_cells: 0,
         thorough_runs: 300_000,
         real_components: REAL,
         stubbed_components: STUB,
@@ -88,6 +104,7 @@ static SPECS: &[PropertySpec] = &[
         level: "exploration",
         rule: "payload classes (empty, position-dependent text, random, framing look-alikes, highly repetitive, > 64 KiB) compressed by the harness with flate2 encoders at levels 0..9 (stored / fixed / dynamic blocks), gzip members with hand-written FEXTRA/FNAME/FCOMMENT headers; declared as Content-Encoding (any case, in a list) or as a transfer coding before chunked; unknown codings and no coding for the pass-through half; every framing, segmentation and read schedule of C01; damage family: truncation of the compressed stream at an offset class, single-bit flips in the gzip trailer; distinct = (coding, framing, level, label, damage, allow_compression, segmentation, plan shape); non-trivial = a coding is declared",
         quick_runs: 5000,
+        matrix_cells: 0,
         thorough_runs: 250_000,
         real_components: REAL,
         stubbed_components: STUB,
@@ -99,6 +116,7 @@ static SPECS: &[PropertySpec] = &[
         level: "exploration",
         rule: "generated caller programs: method x path (unicode, sub-delims, pre-encoded) x URL query x param/params with arbitrary strings x header set/append over legal alphabets (incl. obs-text, empty, 9 KiB values) x basic/bearer credentials x body kind (none, text, bytes, file, json, streaming json, form, multipart, custom Body issuing write/write_all/flush sequences with zero-length and >8 KiB writes, honest KnownLength or Chunked) x transport write schedule (short writes, EINTR, slow peer); the peer's bytes are parsed by an independent strict HTTP/1.1 request parser; distinct = (method, body kind, counts, auth, fault class); non-trivial = a body or a write fault",
         quick_runs: 6000,
+        matrix_cells: 0,
         thorough_runs: 300_000,
         real_components: REAL,
         stubbed_components: STUB,
@@ -110,6 +128,7 @@ static SPECS: &[PropertySpec] = &[
         level: "exploration",
         rule: "redirect graphs over 3 hosts x 2 ports: chains of length 0..max+2 and cycles over followed statuses 301/302/303/307/308 with Location forms absolute, scheme-relative, absolute-path, relative-path with dot segments, query-only, with fragment, fragment-only, empty, upper-case scheme/host; terminals 2xx/4xx/5xx, unfollowed 3xx (300/304/305/306/399), missing / unparsable / non-http Location; max_redirections 0..6 or default; follow on/off; the recorded connection history is compared with a reference interpreter whose hop URLs come from an independent RFC 3986 section 5.2 resolver; distinct = (form list, statuses, max, follow); non-trivial = at least one hop",
         quick_runs: 6000,
+        matrix_cells: 0,
         thorough_runs: 300_000,
         real_components: REAL,
         stubbed_components: STUB,
@@ -121,6 +140,7 @@ static SPECS: &[PropertySpec] = &[
         level: "exploration",
         rule: "redirect chains of 1..3 hops over followed statuses with Location forms that change host, port or neither, crossed with every request body kind of C07 (incl. file, multipart, custom write sequences) and with a forward-proxy world whose no-proxy list makes proxy applicability change between hops; every hop's bytes are parsed independently and pass the C07 oracle (equality of method/body while all preceding statuses are 307/308, framing consistency otherwise), dialled peer / Host / absolute-form authority belong to the hop's URL; distinct = (method, body kind, statuses, forms, proxy world); non-trivial = a body or a proxy",
         quick_runs: 5000,
+        matrix_cells: 0,
         thorough_runs: 200_000,
         real_components: REAL,
         stubbed_components: STUB,
@@ -132,6 +152,7 @@ static SPECS: &[PropertySpec] = &[
         level: "exploration",
         rule: "configuration sampling (no schedule or fault in this property - stated plainly): hosts over a small label alphabet so that equal / subdomain / same-suffix / superstring relations occur, IPv4/IPv6 literals; no-proxy entries derived from the host (equal, upper-case, parent domain, first characters dropped, TLD only, prefixed, empty); builder API and the simulated environment (8 variables over unset/empty/blank/http/https/socks/garbage, NO_PROXY lists with blanks and leading dots, '*'); observed on for_url() and on the peer send() dials; distinct = configuration shape; every run non-trivial",
         quick_runs: 20000,
+        matrix_cells: 0,
         thorough_runs: 2_000_000,
         real_components: REAL,
         stubbed_components: STUB,
@@ -143,10 +164,23 @@ static SPECS: &[PropertySpec] = &[
         level: "exploration",
         rule: "families: no-false-timeout (complete response, reads after end-of-body, zero-length reads, think time, early drop), stall and byte-drip at a drawn phase (before status line, inside head, between head and body, inside chunk / body), slow redirect chains, peer not reading the upload; T and R drawn per run (T only, R only, both); caller + watchdog threads interleaved by the seeded scheduler at every socket/channel/spawn/drop primitive; distinct = plan shape x schedule signature; all runs non-trivial",
         quick_runs: 6000,
+        matrix_cells: 0,
         thorough_runs: 400_000,
         real_components: REAL,
         stubbed_components: STUB,
         assumptions: &["shutdown(Both) on a clone wakes a blocked reader with Ok(0) and a blocked writer with EPIPE (Linux)", "time spent inside connect itself is added to the bound (documented: timeout applies after the TCP connection is established)", "plain http only in this family; tunnelled variant covered by C12/C14 worlds"],
+    },
+    PropertySpec {
+        id: "C14",
+        scenario: props::c14::scenario,
+        level: "exploration",
+        rule: "the full matrix {chain to added root, self-signed, unknown issuer, expired} x {name matches, differs} x accept_invalid_certs x accept_invalid_hostnames x root added x {direct, via CONNECT, https proxy} x flag placed on {session, request, sibling request} = 576 cells, walked completely by run index (exhaustive for the matrix; each cell repeated under different scheduler/aux seeds); peers are rustls ServerConnection state machines driven by the kernel; the client handshake runs over the library's own BaseStream; distinct = matrix cell; every cell non-trivial",
+        quick_runs: 1152,
+        matrix_cells: props::c14::CELLS,
+        thorough_runs: 576 * 20,
+        real_components: TLS_REAL,
+        stubbed_components: STUB,
+        assumptions: &["certificate validity is judged against the real wall clock by the TLS library; fixtures are valid 2020-2120 or expired since 2001 so the outcome does not depend on the date", "this build exercises one TLS back end (see evidence 'extra.backend'); the other back end is a second build of the same check", "no schedule or fault dimension: the matrix is finite and enumerated"],
     },
     PropertySpec {
         id: "C15",
@@ -154,6 +188,7 @@ static SPECS: &[PropertySpec] = &[
         level: "exploration",
         rule: "forms with 0..6 text fields and 0..5 files; data over all byte values incl. CR, LF, dashes and look-alike delimiter lines; part sizes 0 .. >64 KiB drawn so that part boundaries cover the residues of the 8 KiB copy buffer; names/filenames over printable characters; valid MIME strings; transfer under short writes / EINTR / slow peer; the de-chunked body is decoded by an independent multipart decoder with the boundary from Content-Type; distinct = (field counts, size residue class, fault class, filename/mime counts); non-trivial = at least one field",
         quick_runs: 5000,
+        matrix_cells: 0,
         thorough_runs: 200_000,
         real_components: REAL,
         stubbed_components: STUB,
@@ -165,6 +200,7 @@ static SPECS: &[PropertySpec] = &[
         level: "exploration",
         rule: "resolver output: 0..3 IPv6 and 0..3 IPv4 addresses in a drawn interleaving; each address accepts / refuses after a latency around 0, just below/above the 200 ms race interval and around the connect timeout, or black-holes; connect timeout and overall deadline (none, zero, shorter than the race, long) drawn; racing threads interleaved by the seeded scheduler; distinct = (address behaviour list, connect timeout, deadline) x schedule signature; non-trivial = at least two addresses (the racing path)",
         quick_runs: 6000,
+        matrix_cells: 0,
         thorough_runs: 300_000,
         real_components: REAL,
         stubbed_components: STUB,
@@ -176,6 +212,7 @@ static SPECS: &[PropertySpec] = &[
         level: "exploration",
         rule: "bodies: text in 8 scripts re-encoded into each of the 38 exported charsets, truncated and damaged multi-byte sequences, random bytes, BOM-prefixed bodies (split-independence half only); Content-Type absent / without charset / with a known label in upper, lower or mixed case with or without the blank / unknown or empty label; default charset set or not; text, text_with, text_utf8, text_reader, text_reader_with with read sizes 1 B .. 9 KB; every framing, chunking and segmentation of C01; expected = one-shot encoding_rs decode of the whole payload with the charset chosen by the stated precedence; distinct = (API, body kind, header class, default, selected charset, plan shape); non-trivial = several delivery segments or a streaming reader",
         quick_runs: 6000,
+        matrix_cells: 0,
         thorough_runs: 300_000,
         real_components: REAL,
         stubbed_components: STUB,
@@ -187,6 +224,7 @@ static SPECS: &[PropertySpec] = &[
         level: "exploration",
         rule: "uncompressed C01 plans whose peer goes silent forever (connection open) after a drawn prefix: after the blank line, after a complete chunk, inside a chunk, at the frame end, uniform; prefix delivered under a drawn segmentation with segments spread over simulated time; caller reads with buffers 1 B .. 1 MiB; read timeout 1 h so any wrong wait is visible as simulated time; distinct = plan-shape string; all runs non-trivial (stall fault)",
         quick_runs: 6000,
+        matrix_cells: 0,
         thorough_runs: 400_000,
         real_components: REAL,
         stubbed_components: STUB,
@@ -203,6 +241,11 @@ fn verif_dir() -> String {
 }
 
 fn main() {
+    // OpenSSL would otherwise parse the whole system trust store for every handshake (slow and
+    // heavily contended in OpenSSL 3.0).  The fixtures chain to their own CA, so the system store
+    // is irrelevant: point the default verify paths at a one-certificate bundle and an empty dir.
+    std::env::set_var("SSL_CERT_FILE", format!("{}/certs/systemstore.pem", verif_dir()));
+    std::env::set_var("SSL_CERT_DIR", format!("{}/certs/empty-dir", verif_dir()));
     let args: Vec<String> = std::env::args().collect();
     let code = match args.get(1).map(|s| s.as_str()) {
         Some("run") => cmd_run(&args[2..]),
@@ -293,8 +336,8 @@ fn cmd_run(args: &[String]) -> i32 {
         &b,
         new_violations,
         known_hits,
-        &format!("{}/evidence/{}.json", vd, spec.id),
-        serde_json::json!({ "violating_runs": n_found_runs, "violation_classes": classes.iter().map(|c| c.class.clone()).collect::<Vec<_>>() }),
+        &format!("{}/evidence/{}{}.json", vd, spec.id, std::env::var("VERIF_EVIDENCE_SUFFIX").unwrap_or_default()),
+        serde_json::json!({ "violating_runs": n_found_runs, "violation_classes": classes.iter().map(|c| c.class.clone()).collect::<Vec<_>>(), "tls_backend": BACKEND }),
     );
     println!(
         "summary property={} evaluations={} distinct_nontrivial={} schedule_signatures={} sim_seconds={:.1} wall_s={:.1} violating_runs={} new_violation_classes={} known={}",
@@ -382,7 +425,7 @@ fn cmd_determinism(args: &[String]) -> i32 {
                             break;
                         }
                         let rs = attosim::tape::mix(seed ^ runner::prop_hash(spec.id), i);
-                        let ctx = runner::RunCtx { thorough: false, sched: None, sched_seed: attosim::tape::mix(rs, 0x5c4ed), trace: false, describe: false };
+                        let ctx = runner::RunCtx { index: Some(i), thorough: false, sched: None, sched_seed: attosim::tape::mix(rs, 0x5c4ed), trace: false, describe: false };
                         let r = runner::execute(spec, attosim::Tape::from_seed(rs), &ctx);
                         let v = match &r.report.verdict {
                             Verdict::Pass => "pass".to_string(),
